@@ -739,8 +739,22 @@ func c06DecoderCtors(c *Ctx, a *sketchAnchors, rule string) {
 				}
 			}
 			var m, pos, neg, z *Term
+			viaCtor := false
 			if inner.Op == "call" && strings.HasSuffix(inner.Sym, ".NewDDSketch") && len(inner.Args) == 3 {
 				m, pos, neg = inner.Args[0], inner.Args[1], inner.Args[2]
+			} else if g := c.P.Func(pkgSketch, "NewDDSketchFromStoreProvider"); g != nil && inner.Op == "call" && inner.Sym == funcName(g) && len(inner.Args) == 2 {
+				// the provider constructor: NewDDSketch(mapping, provider(), provider()) — two separate calls
+				gp, _ := exec(c, g, nil, 1)
+				okG := len(gp) == 1 && len(gp[0].RetT) == 1
+				if okG {
+					r := gp[0].RetT[0]
+					okG = r.Op == "call" && strings.HasSuffix(r.Sym, ".NewDDSketch") && len(r.Args) == 3 && r.Args[0].isParam(0) &&
+						r.Args[1].Op == "dyncall" && r.Args[1].Args[0].isParam(1) && r.Args[2].Op == "dyncall" && r.Args[2].Args[0].isParam(1) && !sameVal(r.Args[1], r.Args[2])
+				}
+				if !okG || !stripConv(inner.Args[0]).isParam(mapP) || !inner.Args[1].isParam(provP) {
+					bad = "the sketch decoded into is " + inner.Key() + ", which does not carry the caller's mapping and two separate stores from the caller's provider"
+				}
+				viaCtor = true
 			} else {
 				fl := fieldsOf(inner)
 				m, pos, neg, z = fl[a.mapField], fl[a.posField], fl[a.negField], fl[a.zeroField]
@@ -749,6 +763,7 @@ func c06DecoderCtors(c *Ctx, a *sketchAnchors, rule string) {
 				return t != nil && t.Op == "dyncall" && len(t.Args) >= 1 && t.Args[0].isParam(provP)
 			}
 			switch {
+			case viaCtor:
 			case m == nil || !stripConv(m).isParam(mapP):
 				bad = fmt.Sprintf("the mapping of the sketch decoded into is %v, not the caller's mapping argument", m)
 			case !fromProvider(pos) || !fromProvider(neg):
